@@ -41,9 +41,10 @@ Fire(a) ==
     [] a.op = "slice"    -> Slice(a.o, a.kind)
     [] a.op = "ocopy"    -> Copy(a.o, a.how)
     [] a.op = "to"       -> ObjTo(a.o, a.u)
+    [] a.op = "vset"     -> VecSet(a.o, a.c, a.src)
     [] a.op = "sortkey"  -> DgSortByKey(a.g, a.k)
     [] a.op = "sortidx"  -> DgSortByIdx(a.g, a.p)
-    [] a.op = "iop"      -> IOpArgsOk(a.o, a.rhs) /\ IOp(a.f, a.o, a.rhs)
+    [] a.op = "iop"      -> IOpArgsOk(a.o, a.rhs) /\ IOpQ(a.f, a.o, a.rhs, a.q)
     [] a.op = "eq"       -> DgEq(a.g, a.h)
     [] a.op = "dsset"    -> DsSet(a.d, a.k, a.g)
     [] a.op = "dssetbad" -> DsSetBad(a.d, a.k, a.o)
